@@ -400,6 +400,7 @@ func RunTransfer(ctx context.Context, client, server *quic.Conn, connIdx int, ts
 			go func() {
 				defer wg.Done()
 				rng := rngFor(900 + uint64(b2i(side)))
+				scratch := make([]byte, 1024)
 				for i := 0; i < ts.Datagrams; i++ {
 					n := 12 + rng.IntN(900)
 					p := make([]byte, n)
@@ -412,7 +413,14 @@ func RunTransfer(ctx context.Context, client, server *quic.Conn, connIdx int, ts
 					smu.Lock()
 					sent[uint32(i)] = p
 					smu.Unlock()
-					if err := snd.SendDatagram(append([]byte(nil), p...)); err != nil {
+					// the application reuses one scratch buffer (as an io.Writer-style caller may): what was handed
+					// to SendDatagram must not depend on what happens to the buffer afterwards
+					m := copy(scratch, p)
+					err := snd.SendDatagram(scratch[:m])
+					for j := range scratch[:m] {
+						scratch[j] = 0xEE
+					}
+					if err != nil {
 						return
 					}
 					t.mu.Lock()
